@@ -19,7 +19,7 @@ from fractions import Fraction
 
 import numpy as np
 
-from .core import coq, Raw, img_coq
+from .core import coq, img_coq
 
 PID = 'C03'
 FILES = ['lib/Cases.v', 'lib/Conn.v',
@@ -43,10 +43,10 @@ def make_scene(seed, dyadic=False):
     orientation and amplitude (one close pair, one source near the frame edge) on a positive
     background with noise; a mask, an error map.  Everything derives from `seed`."""
     rng = random.Random(seed)
-    ny = rng.randint(44, 58)
-    nx = rng.randint(44, 58)
+    ny = rng.randint(48, 64)
+    nx = rng.randint(48, 64)
     while nx == ny:
-        nx = rng.randint(44, 58)
+        nx = rng.randint(48, 64)
     nprng = np.random.default_rng(rng.getrandbits(32))
     yy, xx = np.mgrid[0:ny, 0:nx]
     bkg = 2.0
@@ -281,10 +281,6 @@ def g_aperture_photometry(sc, T, R, grng):
                      lambda: {'bbox': bbox_tuple(b0), 'bbox_T': bbox_tuple(b1)})
         for method in ('exact', 'center', 'subpixel'):
             kws = dict(method=method, subpixels=grng.choice([3, 5, 8]))
-            if T.kind == 'transpose' and method != 'exact':
-                # pixel-centre tests of a rotated shape are decided by rounding when transposed exactly on the
-                # boundary; never the case for random real parameters
-                pass
             t0 = aperture_photometry(d, ap0, error=e if use_err else None, mask=m if use_mask else None, **kws)
             t1 = aperture_photometry(D, ap1, error=E if use_err else None, mask=M if use_mask else None, **kws)
             det = lambda: {'aperture': name, 'params': kw, 'method': kws, 'positions': pos,
@@ -865,6 +861,7 @@ def g_source_catalog(sc, T, R, grng):
     rad = rad + 4.0
     interior = (xc - rad >= 0) & (xc + rad <= nx - 1) & (yc - rad >= 0) & (yc + rad <= ny - 1)
     R.skip('SourceCatalog', 'beyond-segment-footprint-not-inside-frame', int((~interior).sum()))
+    R.skip('SourceCatalog', '(not skipped) beyond-segment-footprint-inside-frame', int(interior.sum()))
     det = lambda: {'threshold': thr, 'options': opts, 'nlabels': int(n), 'interior': interior.tolist(),
                    'xcentroid': js(xc), 'ycentroid': js(yc)}
     # with a local background, min_value / max_value / segment_flux subtract it: they see the padding too
@@ -1343,7 +1340,7 @@ def random_shift(rng):
 def run(ctx):
     ctx.build(FILES)
     ctx.cov['rule'] = (
-        'random asymmetric scenes (44..58 pixels a side, never square; 4-6 rotated elliptical Gaussian blobs of different '
+        'random asymmetric scenes (48..64 pixels a side, never square; 4-6 rotated elliptical Gaussian blobs of different '
         'size / ellipticity / amplitude incl. one close pair and one source near the frame edge, positive background + '
         'uniform noise, 1% random mask, error map); every third scene has positions / radii on the 1/8 lattice (then '
         'offset-independent code paths are compared bitwise); transforms: embedding at (dy,dx) in [0,7]^2 with 0..9 '
@@ -1368,8 +1365,12 @@ def run(ctx):
     ctx.stat('coq', 'disagreements', len(bad))
     for d in descs:
         ctx.count_case(d, True)
+    nbc = 0
     for i in bad[:10]:
         if descs[i]['kind'] == 'background_centroid':
+            nbc += 1
+            if nbc > 2:
+                continue
             holds, a, b = background_centroid_relation(descs[i])
             if not holds:
                 ctx.violation('SourceCatalog:shift:background_centroid unchanged',
